@@ -40,6 +40,8 @@ def sh(cmd, timeout, cwd=None, env=None):
 
 
 def ensure_makefile():
+    from tools import mkproject
+    mkproject.write()
     mk = os.path.join(COQ, "Makefile")
     proj = os.path.join(COQ, "_CoqProject")
     if not os.path.exists(mk) or os.path.getmtime(mk) < os.path.getmtime(proj):
@@ -301,6 +303,7 @@ def pattern(a, c, length):
 
 # ---------------------------------------------------------------- findings / replays / evidence
 def load_known():
+    """known_findings.json (committed, never written at run time)"""
     path = os.path.join(VERIF, "known_findings.json")
     if not os.path.exists(path):
         return []
